@@ -33,7 +33,8 @@ CONSTANTS N,          \* ticks
           ZeroLen,    \* BOOLEAN: environment may ask zero-length queries a = b
           Fuel,       \* bound on recursion depth explored
           MaxEval,    \* exploration bound on _num_evaluations (state constraint)
-          MaxNodes    \* exploration bound on the number of tree nodes (state constraint)
+          MaxNodes,   \* exploration bound on the number of tree nodes (state constraint)
+          Legacy      \* BOOLEAN: model the code BEFORE the fix: commits of known_findings.json (D1, D2, D3/D7, D9)
 
 Unlimited == -1
 T == N * Sub
@@ -74,11 +75,11 @@ Leaf(s, e) == [s |-> s, e |-> e, mid |-> -1]
 SplitExact(tr, cur, m) ==
   LET n  == tr[cur]
       rm == Round(m)
-  IN [p \in (DOMAIN tr) \cup {LC(cur), RC(cur)} |->
+  IN TLCEval([p \in (DOMAIN tr) \cup {LC(cur), RC(cur)} |->
         IF p = cur THEN [n EXCEPT !.mid = rm]
         ELSE IF p = LC(cur) THEN Leaf(n.s, rm)
         ELSE IF p = RC(cur) THEN Leaf(rm, n.e)
-        ELSE tr[p]]
+        ELSE tr[p]])
 
 (* _split in dyadic mode: plain Python recursion, one frame per level.  m is already rounded. *)
 RECURSIVE SplitH(_, _, _, _)
@@ -141,8 +142,15 @@ RECURSIVE Compute(_, _)
 Compute(c, ps) == IF ps = <<>> THEN c ELSE Compute(InsertAll(c, Chain(c, Head(ps))), Tail(ps))
 
 (* ---- _create_dependency_tree / _set_points ------------------------------------------------- *)
-CS == IF CacheSize = Unlimited THEN 100 ELSE Min(CacheSize, 100)
+CS == IF CacheSize = Unlimited THEN 100
+      ELSE IF Legacy THEN Min(CacheSize, 100) ELSE Max(Min(CacheSize, 100), 1)
 (* piece_length = tree_dt * CS * 0.8 ;  (e - s) > piece_length  <=>  5 (e - s) > 4 tree_dt CS  *)
+(* The code visits: an interval, then everything in its left child, then everything in its right  *)
+(* child -- since fix D1 with an explicit stack (no Python recursion), before it recursively.      *)
+(* `depth` is the nesting level: fuel for the model in both cases, Python stack depth in Legacy.   *)
+(* Float-level note: with piece length 0 (Legacy, cache_size = 0) the halving only stops at the    *)
+(* resolution of float64 and then recurses on a child with its parent's span; the model reports    *)
+(* that divergence directly instead of pretending its sub-unit were an ulp.                         *)
 RECURSIVE SetPoints(_, _, _, _)
 SetPoints(tr, cur, tdt, depth) ==
   LET n == tr[cur]
@@ -150,11 +158,16 @@ SetPoints(tr, cur, tdt, depth) ==
   IN
   IF depth > Fuel THEN R(tr, depth, TRUE, "", FALSE)
   ELSE IF 5 * (n.e - n.s) > 4 * tdt * CS THEN
-     IF (n.e + n.s) % 2 # 0 THEN R(tr, depth, FALSE, "", TRUE)
+     IF tdt * CS = 0 THEN R(tr, depth, TRUE, "", FALSE)
+     ELSE IF (n.e + n.s) % 2 # 0 THEN R(tr, depth, FALSE, "", TRUE)
      ELSE LET m  == (n.e + n.s) \div 2
-              r0 == Loc(tr, cur, n.s, m)
-          IN IF r0.bad # "" THEN R(r0.tr, depth, r0.bad = "diverged", r0.bad, FALSE)
+              rm == Round(m)
+          IN IF ~Legacy /\ ~(n.s < rm /\ rm < n.e) THEN R(tr, depth, FALSE, "", FALSE)   \* fix D9
+             ELSE
+             LET r0 == Loc(tr, cur, n.s, m) IN
+             IF r0.bad # "" THEN R(r0.tr, depth, r0.bad = "diverged", r0.bad, FALSE)
              ELSE IF r0.oob THEN R(r0.tr, depth, FALSE, "", TRUE)
+             ELSE IF LC(cur) \notin DOMAIN r0.tr THEN R(r0.tr, depth, FALSE, "AttributeError", FALSE)
              ELSE LET rl == SetPoints(r0.tr, LC(cur), tdt, depth + 1)
                   IN IF rl.div \/ rl.oob \/ rl.bad # "" THEN rl
                      ELSE LET rr == SetPoints(rl.tr, RC(cur), tdt, depth + 1)
@@ -185,7 +198,9 @@ Init == /\ tree = InitSP.tr
    is a modelling bound, not a behaviour: such steps are disabled.                               *)
 Counting == DtHint = 0 /\ ~Halfway
 Query(a, b) ==
-  IF a = b THEN      \* the ta == tb shortcut is taken BEFORE rounding and touches nothing
+  IF (IF Legacy THEN a = b ELSE Round(a) = Round(b)) THEN
+     \* zero-length shortcut: touches nothing.  Legacy: taken on the raw end points (D3/D7);
+     \* since the fix on the rounded ones.
      /\ lastQ' = <<a, b>> /\ lastOut' = <<>> /\ spDepth' = 0 /\ splitDepth' = 0
      /\ UNCHANGED <<tree, cache, last, nEval, sumDt, treeDt, diverged, err>>
   ELSE
@@ -257,7 +272,8 @@ CacheNoDup == \A i, j \in 1..Len(cache) : cache[i] = cache[j] => i = j
 RECURSIVE Log2Ceil(_)
 Log2Ceil(x) == IF x <= 1 THEN 0 ELSE 1 + Log2Ceil((x + 1) \div 2)
 DepthBound == Log2Ceil(T) + 2
-StackBound == spDepth <= DepthBound /\ splitDepth <= DepthBound
+\* Python stack: dyadic _split always recurses; _set_points only before fix D1
+StackBound == splitDepth <= DepthBound /\ (Legacy => spDepth <= DepthBound)
 Terminates == ~diverged
 NoError == err = ""
 
